@@ -232,6 +232,15 @@ def parse_rvalue(s):
                 k, v = kv.split(":", 1)
                 fields[k.strip()] = parse_operand(v)
         return ("agg", name, fields)
+    # tuple-like enum variant aggregate  Path::<..>::Variant(op, ...)
+    m = re.match(r"^(.*)::(\w+)\((.*)\)$", s)
+    if m and re.match(r"^[A-Za-z_][\w:<>, &'\[\]()]*$", m.group(1)) and not m.group(1).startswith(("copy ", "move ", "const ")):
+        inner = m.group(3).strip()
+        try:
+            ops = [parse_operand(x) for x in split_top(inner)] if inner else []
+            return ("agg", "variant:" + m.group(2), ops)
+        except Unsupported:
+            pass
     # unit-like enum variant / path constant (e.g. std::sync::atomic::Ordering::Relaxed)
     if re.fullmatch(r"[\w:]+", s) and "::" in s:
         return ("use", Operand("const", const=(s, "opaque")))
